@@ -279,6 +279,35 @@ static void string_target_scenarios(Rng &r, size_t tlen, size_t alen, int where)
         w3.str("target", &*t);
         w3.buf("destination", &dest);
         must_throw(UNICODE, w3, [&] { t->to_buffer(dest, false, false); });
+        // the std::string output-parameter forms: the caller's string keeps its value (short and long previous values)
+        for (const char *prev : {"keep", "a previous value that is long enough to live on the heap"}) {
+            g_op = "to_std_string(std::string&,latin1,false)";
+            std::string out(prev);
+            Watch w4;
+            w4.str("target", &*t);
+            w4.stl("destination", &out);
+            must_throw(UNICODE, w4, [&] { t->to_std_string(out, false, false); });
+            g_op = "to_std_string(std::string&,latin1,check_validity) [deprecated]";
+            Watch w5;
+            w5.str("target", &*t);
+            w5.stl("destination", &out);
+            must_throw(UNICODE, w5, [&] { t->to_std_string(out, false, ST::check_validity); });
+        }
+    }
+    // --- a failed floating-point rendering leaves the formatter object as it was
+    {
+        g_op = "float_formatter.format(unsupported specifier)";
+        for (double prev : {1.5, 1e100, -1e300}) {
+            ST::float_formatter<double> ff;
+            ff.format(prev, 'f');
+            const S before(ff.text(), ff.size());
+            bool threw = false;
+            try { va::LibScope ls; ff.format(2.0, r.chance(1, 2) ? 'q' : 'd'); } catch (const ST::bad_format &) { threw = true; vrt::count("threw.ST::bad_format"); }
+            vrt::evals();
+            if (!threw) fail("did-not-throw", "float_formatter::format with an unsupported specifier");
+            else if (ff.size() != before.size() || S(ff.text(), ff.size()) != before) fail("target-changed", sfmt("float_formatter held %zu bytes, now reports %zu", before.size(), ff.size()));
+            vrt::count("scenarios");
+        }
     }
     SCEN("string.at(out of range)", RANGE, , char c = t->at(tv.size() + r.below(3)); (void)c);
     {
